@@ -168,8 +168,8 @@ F = [
   "Exp, Ln and Pow returned Inexact|Subnormal without Underflow when their final rounding removed only zeros (Exp(-0.001) P=4 Emin=0 down; Pow(-0.9999999999999, 2) P=14 Emin=0), and Inexact without Rounded (Pow(1, 0.5) P=1)",
   {"C02": [ar("exp", ctx(4, 4, 0, "down"), dec(1, -3, True), note="composite"), ar("ln", ctx(2, 2, -3, "down"), dec(9999, -4), note="composite"),
            ar("pow", ctx(14, 14, 0, "down"), dec(9999999999999, -13, True), dec(2)), ar("pow", ctx(1, 1, 0, "down"), dec(1), dec(5, -1), note="composite")]}),
- ("D38", None,
-  "Pow with a negative integer exponent reports Inexact although the returned value is the exact result, when x**|y| needs more digits than the working precision (Precision+10) but its reciprocal fits: Pow(-0.5, -30) at Precision 10 returns 1073741824 = 2^30 with Inexact|Rounded (context.go integerPower computes x**|y| rounded, then 1/that)",
+ ("D38", "integerPower raises the exact reciprocal for negative exponents when there is one",
+  "Pow with a negative integer exponent reported Inexact although the returned value was the exact result, when x**|y| needs more digits than the working precision but its reciprocal fits: Pow(-0.5, -30) at Precision 10 returned 1073741824 = 2^30 with Inexact|Rounded (first recorded as an open finding; repaired by raising 1/x when that is exact)",
   {"C02": [ar("pow", ctx(10, 10, 0, "down"), dec(5, -1, True), dec(30, 0, True))]}),
  ("D36", "integerPower reports the right direction when a negative power leaves the range",
   "Pow with a negative integer exponent reported Underflow when x**|y| underflowed although the result (its reciprocal) overflows: Pow(1.9E-1112, -90) failed with SystemUnderflow|Underflow for a value of 8.2E+100054",
